@@ -50,7 +50,7 @@ def _job_worker(conn, cid, params, tier, seed, concrete, prop=None, sample=0, qu
             for i in range(sample):
                 if time.time() - t0 > tlim:
                     break
-                sub = ex.run_concrete({}, [], sampler=Sampler(seed * 1000003 + i))
+                sub = ex.run_concrete({}, [], sampler=Sampler(seed * 1000003 + i, ct.budget.get("sample_max_mag")))
                 nrun += 1
                 nab += sub.aborted
                 for k, v in sub.obl_count.items():
